@@ -114,3 +114,68 @@ theorem rn_nodeLinkData (g : Graph) :
 
 end
 end Dynetx
+
+namespace Dynetx
+
+section
+variable {ρ : Node → Node} (hρ : Function.Injective ρ)
+include hρ
+
+def rnMerged (ρ : Node → Node) (m : List (Node × Node × List Int)) : List (Node × Node × List Int) :=
+  m.map (fun x => (ρ x.1, ρ x.2.1, x.2.2))
+
+theorem rn_mergedGo (g : Graph) (recip : Bool) (l : List (Node × Node × List Span)) :
+    ∀ acc, mergedGo (g.rename ρ) recip (l.map (fun x => (ρ x.1, ρ x.2.1, x.2.2))) (rnMerged ρ acc) =
+      rnMerged ρ (mergedGo g recip l acc) := by
+  induction l with
+  | nil => intro acc; rfl
+  | cons x rest ih =>
+    intro acc
+    obtain ⟨u, v, tl⟩ := x
+    simp only [List.map_cons, mergedGo]
+    have hany : (rnMerged ρ acc).any (fun x => match x with | (a, b, _) => a == ρ v && b == ρ u) =
+        acc.any (fun x => match x with | (a, b, _) => a == v && b == u) := by
+      simp only [rnMerged, List.any_map, Function.comp_def, rn_beq hρ]
+    rw [hany]
+    split
+    · exact ih acc
+    · rw [rn_timeline hρ]
+      have := ih (acc ++ [(u, v, sortedSet (if recip = true then List.filter (fun x => (instants ((g.timeline v u).getD [])).contains x) (instants tl)
+          else instants tl ++ instants ((g.timeline v u).getD [])))])
+      simp only [rnMerged, List.map_append, List.map_cons, List.map_nil] at this ⊢
+      exact this
+
+/-- **`to_undirected` is equivariant** -/
+theorem rn_toUndirected (g : Graph) (recip : Bool) :
+    (g.rename ρ).toUndirected recip = (g.toUndirected recip).map (Graph.rename ρ) := by
+  unfold Graph.toUndirected
+  simp only
+  rw [rn_outInteractionsData hρ]
+  have hm := rn_mergedGo hρ g recip g.outInteractionsData []
+  simp only [rnMerged, List.map_nil] at hm
+  rw [hm]
+  have hcalls : ((mergedGo g recip g.outInteractionsData []).map (fun x => (ρ x.1, ρ x.2.1, x.2.2))).flatMap
+        (fun (x : Node × Node × List Int) => (runsOf x.2.2).map (fun (s : Int × Int) => (x.1, x.2.1, s.1, some (s.2 + 1)))) =
+      rnCalls ρ ((mergedGo g recip g.outInteractionsData []).flatMap
+        (fun (x : Node × Node × List Int) => (runsOf x.2.2).map (fun (s : Int × Int) => (x.1, x.2.1, s.1, some (s.2 + 1))))) := by
+    simp only [rnCalls, List.flatMap_map, List.map_flatMap, List.map_map]
+    rfl
+  have hflat : ∀ (l : List (Node × Node × List Int)),
+      l.flatMap (fun x => match x with | (u, v, s) => (runsOf s).map (fun x => match x with | (a, b) => (u, v, a, some (b + 1)))) =
+      l.flatMap (fun (x : Node × Node × List Int) => (runsOf x.2.2).map (fun (s : Int × Int) => (x.1, x.2.1, s.1, some (s.2 + 1)))) :=
+    fun _ => rfl
+  rw [hflat, hflat, hcalls]
+  have h0 : ({ Graph.empty false true with nodes := (g.rename ρ).nodes.map (fun (p : Node × Nat) => (p.1, 0)) } : Graph) =
+      ({ Graph.empty false true with nodes := g.nodes.map (fun (p : Node × Nat) => (p.1, 0)) } : Graph).rename ρ := by
+    simp [Graph.rename, Graph.empty, List.map_map, Function.comp_def]
+  rw [h0, rn_addMany hρ]
+  cases h : ({ Graph.empty false true with nodes := g.nodes.map (fun (p : Node × Nat) => (p.1, 0)) } : Graph).addMany
+      ((mergedGo g recip g.outInteractionsData []).flatMap
+        (fun (x : Node × Node × List Int) => (runsOf x.2.2).map (fun (s : Int × Int) => (x.1, x.2.1, s.1, some (s.2 + 1))))) with
+  | mk h' err =>
+    cases err with
+    | some e => rfl
+    | none => rfl
+
+end
+end Dynetx
